@@ -50,7 +50,7 @@ func TestTriageF20(t *testing.T) {
 			}
 
 			if !reflect.DeepEqual(v, pristine) {
-				t.Errorf("F20: Encode mutated its input:\n after : %s\n before: %s", sdump(v), sdump(pristine))
+				t.Errorf("F20: Encode mutated its input:\n after : %s\n before: %s", triageF20Dump(v), triageF20Dump(pristine))
 			}
 
 			second, err := p.Encode(&parser.PacketHeader{Type: parser.PacketTypeEvent, Namespace: "/"}, &v)
@@ -64,37 +64,37 @@ func TestTriageF20(t *testing.T) {
 	}
 }
 
-// sdump renders v with byte slices shown as strings and pointers shown as `&`.
-func sdump(v any) string {
-	return sdumpValue(reflect.ValueOf(v))
+// triageF20Dump renders v with byte slices shown as strings and pointers shown as `&`.
+func triageF20Dump(v any) string {
+	return triageF20DumpValue(reflect.ValueOf(v))
 }
 
-func sdumpValue(rv reflect.Value) string {
+func triageF20DumpValue(rv reflect.Value) string {
 	switch rv.Kind() {
 	case reflect.Interface:
-		return sdumpValue(rv.Elem())
+		return triageF20DumpValue(rv.Elem())
 	case reflect.Ptr:
-		return "&" + sdumpValue(rv.Elem())
+		return "&" + triageF20DumpValue(rv.Elem())
 	case reflect.Slice:
 		if rv.Type().Elem().Kind() == reflect.Uint8 {
 			return fmt.Sprintf("%s(%q)", rv.Type(), rv.Bytes())
 		}
 		s := "["
 		for i := 0; i < rv.Len(); i++ {
-			s += sdumpValue(rv.Index(i)) + " "
+			s += triageF20DumpValue(rv.Index(i)) + " "
 		}
 		return s + "]"
 	case reflect.Map:
 		s := "map["
 		iter := rv.MapRange()
 		for iter.Next() {
-			s += fmt.Sprintf("%v:%s ", iter.Key(), sdumpValue(iter.Value()))
+			s += fmt.Sprintf("%v:%s ", iter.Key(), triageF20DumpValue(iter.Value()))
 		}
 		return s + "]"
 	case reflect.Struct:
 		s := rv.Type().String() + "{"
 		for i := 0; i < rv.NumField(); i++ {
-			s += rv.Type().Field(i).Name + ":" + sdumpValue(rv.Field(i)) + " "
+			s += rv.Type().Field(i).Name + ":" + triageF20DumpValue(rv.Field(i)) + " "
 		}
 		return s + "}"
 	case reflect.Invalid:
